@@ -65,6 +65,18 @@ def _check_chunk(cases):
                         bad(site, "%s thresholds %r interval %d, array x=%r: expected %r observed %r" % (c["bt"], c["ths"], k, c["x"], e["member"], arr), c)
                     if not close(float(iv.center), num(e["center"])):
                         bad("Interval.center", "%s %r interval %d: expected %r observed %r" % (c["bt"], c["ths"], k, e["center"], iv.center), c)
+                # contingency tables: a pair with a missing member belongs to no cell; (x, x) falls in `hit` or `correct rejection`
+                if c["ivs"]:
+                    import verif.metric
+                    e = c["ivs"][0]
+                    obs3 = np.array([x, x, np.nan, np.nan], float)
+                    fc3 = np.array([x, np.nan, x, np.nan], float)
+                    tab = [0 if np.ma.is_masked(v) else int(v) for v in verif.metric.Ets()._compute_abcd(obs3, fc3, ivs[0])]
+                    want = [0, 0, 0, 0] if e["member"] == "nan" else [int(e["member"]), 0, 0, 1 - int(e["member"])]
+                    n += 1
+                    if tab != want and not math.isinf(x):
+                        bad("contingency-table", "%s thresholds %r, pairs (x,x),(x,nan),(nan,x),(nan,nan) with x=%r: expected table %r observed %r"
+                            % (c["bt"], c["ths"], c["x"], want, tab), c)
                 if c["binary"] != "na":
                     t1 = num(c["ths"][0])
                     t2 = num(c["ths"][1]) if len(c["ths"]) > 1 else None
